@@ -32,6 +32,12 @@ def tr(start, end):
 FILTERS = {
     # the four filters of IndexMgrMC (spec -> code)
     "fA": flt('<C:comp-filter name="VEVENT"><C:prop-filter name="SUMMARY"/></C:comp-filter>'),
+    "sumEsc": flt('<C:comp-filter name="VEVENT"><C:prop-filter name="SUMMARY"><C:text-match collation="i;octet">'
+                  'Budget, Q3; final\nnotes</C:text-match></C:prop-filter></C:comp-filter>'),
+    "locEsc": flt('<C:comp-filter name="VEVENT"><C:prop-filter name="LOCATION"><C:text-match>room, 2nd FLOOR'
+                  '</C:text-match></C:prop-filter></C:comp-filter>'),
+    "noSum": flt('<C:comp-filter name="VEVENT"><C:prop-filter name="SUMMARY"><C:is-not-defined/></C:prop-filter>'
+                 '</C:comp-filter>'),
     # a component type asked for at a level where the objects do not have it (they have it deeper)
     "calAlarm": flt('<C:comp-filter name="VALARM"/>'),
     "calNoAlarm": flt('<C:comp-filter name="VALARM"><C:is-not-defined/></C:comp-filter>'),
@@ -153,6 +159,10 @@ BODIES = {
     "empty": (lambda U: cal(ev(U, "Alpha", "", "")), "plain"),                      # LOCATION: and DESCRIPTION: empty
     "zero": (lambda U: cal(ev(U, "", extra=("PRIORITY:0", "SEQUENCE:0", "PERCENT-COMPLETE:0"))), "plain"),
     "bad": (lambda U: b"BEGIN:VCALENDAR\r\nthis is not a calendar\r\n", "unparseable"),
+    # text with characters that are escaped in the stored form; two events of which one lacks SUMMARY
+    "esc": (lambda U: cal(ev(U, "Budget\\, Q3\\; final\\nnotes", "Room\\, 2nd floor")), "plain"),
+    "sumMix": (lambda U: cal(ev(U, "Alpha"), ev(U, None, dtstart="20200122T100000Z", dtend="20200122T110000Z",
+                                              extra=("RECURRENCE-ID:20200122T100000Z",))), "multi"),
     # components nested two levels deep: an alarm inside the event, STANDARD inside VTIMEZONE
     "alarm": (lambda U: cal(ev(U, "Alpha", extra=("BEGIN:VALARM", "ACTION:DISPLAY", "DESCRIPTION:ring",
                                                    "TRIGGER:-PT15M", "END:VALARM"))), "plain"),
@@ -348,6 +358,7 @@ def random_ops(seed, length=40):
                 (["hasLoc", "noLoc", "notLoc1", "fD"], ["m1", "m2", "m4", "empty", "janB", "jan"]),
                 (["hasPrio", "noSeq", "catTwo"], ["zero", "cat2", "jan", "empty"]),
                 (["noCompleted", "todoJan", "todo", "noTodo"], ["todo", "todoN", "todoDone", "jan"]),
+                (["sumEsc", "locEsc", "noSum", "fA"], ["esc", "sumMix", "jan", "empty", "m3"]),
                 (["calAlarm", "calNoAlarm", "evAlarm", "evNoAlarm", "calStandard", "evAlarmAction"],
                  ["alarm", "alarmTz", "jan", "tz", "todo"])]
     bodies = list(BODIES)
